@@ -37,10 +37,14 @@ Meets(sa, sb) == \E j \in 1..Len(sa) : InSeq(sa[j], sb)
 \*   kind  "builtin" | "user" | "glomdoc" (a documented glom error type raised by glom itself)
 Cls(id, more, exc, glom, rec, cp, kind) ==
   [id |-> id, anc |-> <<id>> \o more, exc |-> exc, glom |-> glom, rec |-> rec, cp |-> cp, kind |-> kind,
-   truthy |-> TRUE]
+   truthy |-> TRUE, eq |-> "std"]
 \*   truthy  bool(instance): FALSE for classes defining __len__ -> 0 or __bool__ -> False.  No law
 \*           mentions it: the truth value of an exception object must not influence anything.
 Falsy(c) == [c EXCEPT !.truthy = FALSE]
+\*   eq      instance == <foreign object>: "std" (identity), "raises" (a naive value-based __eq__ that
+\*           reads an attribute of the other operand), "always" (equal to everything).  No law
+\*           mentions it either: glom must tell exception objects apart by identity.
+WithEq(c, k) == [c EXCEPT !.eq = k]
 
 BE == <<"BaseException">>
 EX == <<"Exception", "BaseException">>
@@ -63,6 +67,10 @@ Value(v, at)     == [st |-> "value", val |-> v, at |-> at]
 IsRaised(x) == x.st = "raised"
 IsGlomErr(x) == x.st = "raised" /\ x.cls.glom          \* isinstance(e, GlomError)
 IsExc(x)     == x.st = "raised" /\ x.cls.exc           \* isinstance(e, Exception)
+
+\* the wrapper class built by GlomError.wrap: type(name, (exc_type, GlomError), {})
+WrapCls(c) == [c EXCEPT !.anc = c.anc \o (IF InSeq("GlomError", c.anc) THEN <<>> ELSE <<"GlomError">>),
+                        !.glom = TRUE]
 
 \* except <set of class names>
 Matches(c, names) == Meets(c.anc, names)
@@ -90,7 +98,12 @@ Ctx(k, v, skip, sib, dflt) == [k |-> k, v |-> v, skip |-> skip, sib |-> sib, dfl
 \* ======================================================================================
 \* tuple / dict / list / Pipe / Spec / Auto / Fill / Invoke / Ref / Iter / And / Match
 \* without default / last child of Or / Switch value spec: nothing is caught
-UpPass(c, l, x) == x
+\* Mutant "eq_compare": the bookkeeping of a chained step (later tuple / Pipe step, Switch value)
+\* compares the recorded error with `==`: a naive __eq__ raises AttributeError there
+AttrErrCls == Cls("AttributeError", EX, TRUE, FALSE, "same", "ok", "builtin")
+UpPass(c, l, x) ==
+  IF Mutant = "eq_compare" /\ c.v \in {"tuple2", "pipe", "swval"} /\ IsExc(x) /\ x.cls.eq = "raises"
+  THEN Raised(AttrErrCls, "new") ELSE x
 
 \* Coalesce(sub, [alt], skip_exc=.., default=..): "skip_exc: An exception or tuple of
 \* exception types to catch and move on to the next subspec. Defaults to GlomError";
@@ -157,6 +170,20 @@ UpTArg(c, l, x) ==
      /\ Matches(x.cls, <<"KeyError", "IndexError", "TypeError">>)
   THEN Raised(GlomDoc("PathAccessError"), "new") ELSE x
 
+\* First(key) / Iter().first(key): the key spec is evaluated on every item; First documents no
+\* catch, an error of the key spec travels on as it is.
+\* Mutant "firstkey_nested_top": the key runs through a nested top-level glom(), which wraps it.
+UpFirstKey(c, l, x) ==
+  IF Mutant = "firstkey_nested_top" /\ IsExc(x) /\ ~x.cls.glom /\ x.cls.rec = "same"
+  THEN [x EXCEPT !.id = "wrap", !.w = TRUE, !.cls = WrapCls(x.cls)] ELSE x
+\* T.__star__().m() / T.__star__()[<spec>] / T.__starstar__().m(): after a wildcard the rest of the
+\* path is followed on every child and children where it cannot be *accessed* (PathAccessError) are
+\* left out; any other error -- raised by the method called or by the index spec -- travels on.
+\* (A fault that is itself a PathAccessError is outside the universe, see MC_C04.)
+\* Mutant "star_drops_glomerror": every GlomError is treated as a miss.
+UpAfterStar(c, l, x) ==
+  IF Mutant = "star_drops_glomerror" /\ IsGlomErr(x) THEN Value("tgt", 0) ELSE x
+
 GlomOnlyCatchers == {"or", "and", "not", "matchdef", "switch"}   \* documented to catch GlomError only
 
 Up(c, l, x, leafid) ==
@@ -172,6 +199,8 @@ Up(c, l, x, leafid) ==
     [] c.k = "pathget"   -> UpPathGet(c, l, x)
     [] c.k = "geniter"   -> UpGenIter(c, l, x)
     [] c.k = "targ"      -> UpTArg(c, l, x)
+    [] c.k = "firstkey"  -> UpFirstKey(c, l, x)
+    [] c.k = "afterstar" -> UpAfterStar(c, l, x)
 
 \* ======================================================================================
 \* 3. MECHANISM: the except blocks of glom()   (glom/core.py, glom() and GlomError.wrap)
@@ -196,9 +225,6 @@ TopValue(d) ==
   ELSE IF Mutant = "default_arg_val" /\ d = "dictT" THEN Raised(GlomDoc("PathAccessError"), "new")
   ELSE Value("topdflt", 0)
 
-\* the wrapper class built by GlomError.wrap: type(name, (exc_type, GlomError), {})
-WrapCls(c) == [c EXCEPT !.anc = c.anc \o (IF InSeq("GlomError", c.anc) THEN <<>> ELSE <<"GlomError">>),
-                        !.glom = TRUE]
 WrapWouldSucceed(a) == IsExc(a) /\ ~a.cls.glom /\ a.cls.rec # "fail"
 
 \* which except branch handles the arriving record `a`
@@ -342,6 +368,8 @@ CatchCheckVal     == Step("checkval", "CatchCheckVal")
 CatchPathGet      == Step("pathget", "CatchPathGet")
 PassIter          == Step("geniter", "PassIter")
 PassArg           == Step("targ", "PassArg")
+PassFirstKey      == Step("firstkey", "PassFirstKey")
+PassAfterStar     == Step("afterstar", "PassAfterStar")
 \* Not(child) with a passing child is C10's business (pre-seen defect there): left out
 Exclude ==
   /\ ph = "up" /\ lvl > 0 /\ ctxs[lvl].k = "not" /\ ~IsRaised(x)
@@ -362,7 +390,7 @@ TopWrap(k)   == Top(k, "wrap", "TopWrap", RaiseErr(DoWrap(x)))
 TopLevel(k)  == TopReturn(k) \/ TopSkip(k) \/ TopBase(k) \/ TopDebug(k) \/ TopCopy(k) \/ TopWrap(k)
 
 Travel == Pass \/ CatchCoalesce \/ CatchOr \/ CatchAnd \/ CatchNot \/ CatchMatchDefault
-          \/ CatchSwitch \/ CatchCheckSpec \/ CatchCheckVal \/ CatchPathGet \/ PassIter \/ PassArg \/ Exclude
+          \/ CatchSwitch \/ CatchCheckSpec \/ CatchCheckVal \/ CatchPathGet \/ PassIter \/ PassArg \/ PassFirstKey \/ PassAfterStar \/ Exclude
 
 \* ---- the laws as predicates over the machine -------------------------------------------
 Done == ph = "done"
@@ -378,9 +406,9 @@ PassThroughLaw ==
   [][(ph = "up" /\ ph' = "up" /\ lvl > 0 /\ IsRaised(x) /\ ~x.cls.glom
       /\ ctxs[lvl].k \in GlomOnlyCatchers) => x' = x]_vars
 \* constructs that document no catch at all (plain containers and wrappers, a list spec walking
-\* an iterator, the argument specs of a T operation) hand on exactly what they received
+\* an iterator, the argument specs of a T operation, the key of First, the path after a wildcard) hand on exactly what they received
 TransparentLaw ==
-  [][(ph = "up" /\ ph' = "up" /\ lvl > 0 /\ ctxs[lvl].k \in {"pass", "geniter", "targ"}) => x' = x]_vars
+  [][(ph = "up" /\ ph' = "up" /\ lvl > 0 /\ ctxs[lvl].k \in {"pass", "geniter", "targ", "firstkey", "afterstar"}) => x' = x]_vars
 \* an exception created on the way (not the injected object) is a documented glom type
 CreatedAreDocumented ==
   (ph = "up" /\ IsRaised(x) /\ x.id = "new") => x.cls.kind = "glomdoc"
